@@ -430,7 +430,7 @@ func (g *seqGen) cacheWrap(family, n int) {
 		w := m.Words(ent, l)
 		switch family {
 		case 0:
-			if k%2 == 1 {
+			if r.Intn(2) == 1 { // (not alternating: a ring of even size would hand back an entry of the same kind)
 				w[len(w)-1] = m.List[l][m.Index[l][w[len(w)-1]]^1]
 			}
 			sep := []string{"\u3000", "\u00a0", "\u2003"}[k%3]
